@@ -492,6 +492,60 @@ def r6(prog, rep):
     rep.ob("R6", "no other point edits of the new contour", len(later) == 2, f.site(), "%d edits" % len(later), key="regrid/edits")
 
 
+def _target_leg_names(mod, g):
+    """the leg names getTargetParameter puts between prefix and suffix, over all outcomes of its
+    membership tests on the region's name (`"inner" in self.name`, ...): the function is replayed
+    on every truth assignment; string-valued locals are followed; the name handed to getattr is
+    read as prefix + <leg> + suffix"""
+    import itertools
+    from ..stores import effects
+    effs = effects(g.node, inline=False)
+    tests = sorted({mod.code(c) for e in effs for c in e.conds if not isinstance(c, str) and isinstance(c, ast.Compare) and isinstance(c.ops[0], (ast.In, ast.NotIn))
+                    and isinstance(c.left, ast.Constant)} | set())
+    base = sorted({mod.code(ast.Compare(left=c.left, ops=[ast.In()], comparators=c.comparators)) for e in effs for c in e.conds
+                   if not isinstance(c, str) and isinstance(c, ast.Compare) and isinstance(c.ops[0], (ast.In, ast.NotIn)) and isinstance(c.left, ast.Constant) and mod.code(c.comparators[0]) == "self.name"})
+    out = set()
+
+    def pieces(n, env):
+        if isinstance(n, ast.Constant) and isinstance(n.value, str):
+            return [n.value]
+        if isinstance(n, ast.Name):
+            return list(env.get(n.id, ["<%s>" % n.id]))
+        if isinstance(n, ast.BinOp) and isinstance(n.op, ast.Add):
+            return pieces(n.left, env) + pieces(n.right, env)
+        raise ValueError(mod.code(n))
+
+    for values in itertools.product((True, False), repeat=len(base)):
+        truth = dict(zip(base, values))
+
+        def holds(c):
+            if isinstance(c, str):
+                return True
+            if isinstance(c, ast.Compare) and isinstance(c.ops[0], (ast.In, ast.NotIn)) and isinstance(c.left, ast.Constant):
+                k = mod.code(ast.Compare(left=c.left, ops=[ast.In()], comparators=c.comparators))
+                if k in truth:
+                    return truth[k] == isinstance(c.ops[0], ast.In)
+            return True  # conditions on something else (which options object) do not matter here
+
+        env = {}
+        for e in effs:
+            if not all(holds(c) for c in e.conds):
+                continue
+            try:
+                if e.kind == "store" and isinstance(e.target, ast.Name):
+                    env[e.target.id] = pieces(e.value, env)
+                elif e.kind == "raise":
+                    break
+                elif e.kind == "return" and isinstance(e.value, ast.Call) and _dotted(e.value.func) == "getattr" and len(e.value.args) == 2:
+                    ps = pieces(e.value.args[1], env)
+                    mid = [x for x in ps if not x.startswith("<")]
+                    out.add("".join(mid))
+                    break
+            except ValueError:
+                continue
+    return {x for x in out if x}
+
+
 def r7(prog, rep):
     sch = Schemas(prog)
     mod = prog.module(EQ)
@@ -500,13 +554,7 @@ def r7(prog, rep):
     if g is None or gs is None:
         raise AnalysisError("getTargetParameter/getSpacings not found")
     # names appended by the lookup
-    legs = set()
-    for n in ast.walk(g.node):
-        if isinstance(n, ast.Call) and _dotted(n.func) == "getattr" and len(n.args) == 2:
-            for c in ast.walk(n.args[1]):
-                if isinstance(c, ast.Constant) and isinstance(c.value, str):
-                    legs.add(c.value)
-    legs = sorted(legs)
+    legs = sorted(_target_leg_names(mod, g))
     rep.floor("R7.legs", len(legs), 4)
     user = set(sch.keys("TokamakEquilibrium.user_options_factory"))
     nonorth = set(sch.keys("TokamakEquilibrium.nonorthogonal_options_factory"))
